@@ -642,7 +642,9 @@ def run(ctx):
             mcs.append((f"mc_walk4_slop{me}", dict(n=4, l=lv, mode="walk", usemin=usemin, reduce=reduce, maxd=2, maxextra=me, inv=INV_WALK)))
         mcs.append(("mc_walk5", dict(n=5, l=2, mode="walk", usemin=usemin, reduce=reduce, maxd=1, maxextra=1, tiebreak="asc", inv=INV_WALK)))
     for name, kw in mcs:
-        jobs.submit(name, "GraphMC.tla", mc_cfg(ctx, d, name, **kw), coverage=False)
+        # quick: leave at least two of the eight TLC workers to the enumeration / judging runs
+        w = (1 if name in ("mc_ff", "mc_repaired") else 2) if ctx.quick else 4
+        jobs.submit(name, "GraphMC.tla", mc_cfg(ctx, d, name, **kw), coverage=False, workers=w)
 
     # ---- 4. spec -> code: replay every enumerated case on the real functions
     records = []
